@@ -27,8 +27,8 @@ import (
 // didDocumentKeyMembers are the members of a DID document that hold verification methods (or references to them).
 var didDocumentKeyMembers = []string{"verificationMethod", "authentication", "assertionMethod", "keyAgreement", "capabilityInvocation", "capabilityDelegation"}
 
-// RejectNullKeyEntries returns an error if the JSON DID document has a null entry in its verificationMethod array or in one of
-// its verification relationship arrays. It is meant to be called on DID documents from untrusted sources before they are unmarshalled:
+// RejectNullKeyEntries returns an error if the JSON DID document has a null (or empty string) entry in its verificationMethod array
+// or in one of its verification relationship arrays. It is meant to be called on DID documents from untrusted sources before they are unmarshalled:
 // the DID library unmarshals such an entry to a nil pointer, which it dereferences while resolving references between the members,
 // in its validators and when marshalling the document.
 // Input that is not a JSON object is not an error here, unmarshalling it will report that.
@@ -44,8 +44,10 @@ func RejectNullKeyEntries(document []byte) error {
 			continue
 		}
 		for _, entry := range entries {
-			if bytes.Equal(bytes.TrimSpace(entry), []byte("null")) {
-				return fmt.Errorf("invalid DID document: %s contains null", name)
+			entry = bytes.TrimSpace(entry)
+			// an empty string is an empty reference: it is not resolved to a verification method, which leaves a nil pointer as well
+			if bytes.Equal(entry, []byte("null")) || bytes.Equal(entry, []byte(`""`)) {
+				return fmt.Errorf("invalid DID document: %s contains a null or empty entry", name)
 			}
 		}
 	}
